@@ -44,7 +44,7 @@ MUTANTS += [
     ("c09_phi_15", "C09", "pbl_model.py", "np.power(1.0 - 16.0 * x, -0.5, dtype=complex).real", "np.power(1.0 - 15.0 * x, -0.5, dtype=complex).real"),
     ("c09_log_zm", "C09", "pbl_model.py", "            ustar = absum * kap / (np.log(zm / z0) + psi(zm / mol))", "            ustar = absum * kap / (np.log(zm / z0) - psi(zm / mol))"),
     ("c09_mostm_swap", "C09", "pbl_model.py", "        Kx = K * v**2 / (u**2 + v**2)\n        Ky = K * u**2 / (u**2 + v**2)\n", "        Kx = K * u**2 / (u**2 + v**2)\n        Ky = K * v**2 / (u**2 + v**2)\n"),
-    ("c09_overshoot_regression", "C09", "pbl_model.py", "    if zeta[-1] >= np.squeeze(aa).item():\n", "    if False:\n"),
+    ("c09_overshoot_regression", "C09", "pbl_model.py", "    if zeta.size and zeta[-1] >= np.squeeze(aa).item():\n", "    if False:\n"),
     ("c09_constant_K_uses_z", "C09", "pbl_model.py", "        Km = kap * ustar * zm / prsc\n", "        Km = kap * ustar * zm\n"),
     ("c09_psi_atan", "C09", "pbl_model.py", "        + 2.0 * np.arctan(xi)\n        - 0.5 * np.pi,", "        + 2.0 * np.arctan(xi)\n        - 0.5 * np.pi + 1e-6,"),
 ]
